@@ -8,7 +8,7 @@ ID = "C01"
 SWITCH_OFF = 6        # every 6th case runs with xfab.CHECKS switched off (results must not depend on it)
 TARGETED = True     # thorough tier uses hypothesis.target on the residual/tolerance ratios
 RULE = ("Hypothesis: cells over the whole domain Gram>=0.02 (general / strongly oblique / Gram-boundary / "
-        "conforming families), hkl in [-30,30]^3\\0, module in {tools, laue}; oracle = metric tensor from its "
+        "conforming families), hkl in [-30,30]^3 (one case in four: [-300,300]^3), whole-number cells typed as ints (list / integer ndarray),\\0, module in {tools, laue}; oracle = metric tensor from its "
         "definition. Non-trivial = at least two angles differ from 90 deg by > 5 deg (oblique); distinct = "
         "distinct generated (cell,hkl,module) tuples")
 ASSUMPTIONS = ["numpy.linalg.inv/det are correct to ~1e-13 relative on 3x3 matrices with cond < 1e8",
